@@ -1,6 +1,8 @@
 import RbdlProofs.Lemmas.L12
 import RbdlProofs.Lemmas.L12Ex
 import RbdlProofs.Lemmas.L12Kin
+import RbdlProofs.Lemmas.L12b
+import RbdlProofs.Lemmas.L12bEx
 /-
   C12 — centre of mass, zero-moment point, kinetic and potential energy (`rbdl_utils.cc`).
 
@@ -439,5 +441,265 @@ example (qd : VecN Rat) (qdd : Option (VecN Rat)) := com_total_updated Ex.m C04.
   true Ex.m_tree Ex.m_hasJcalc Ex.m_frames Ex.m_unit C04.Ex.w_base0
 example (qd qdd : VecN Rat) := zmp_total_updated Ex.m C04.Ex.w C04.Ex.st qd qdd
   Ex.m_tree Ex.m_hasJcalc Ex.m_frames Ex.m_unit C04.Ex.w_base0
+
+/-! ## 7. balance addon: `CalculateFootPlacementEstimator` (`addons/balance/BalanceToolkit.cc`) -/
+section Balance
+open Rbdl.Spec Rbdl.L12b Rbdl.Spec.FpeCode
+variable {α : Type} [Field α]
+
+/-- **parallel-axis form of the whole-body inertia**: about any point `P`,
+    `J_P = J_C + M (|d|² 1 − d dᵀ)` with `C` the centre of mass and `d = C − P` -/
+theorem fpe_parallel_axis [DecidableEq α] (M : SModel α) (st : State α) (P : V3 α) (hM : totalMass M ≠ 0) :
+    inertiaAbout M st P =
+      inertiaAbout M st (com M st)
+        + totalMass M * ((com M st - P).dot (com M st - P) * (M3.one : M3 α)
+            - M3.outer (com M st - P) (com M st - P)) := by
+  unfold inertiaAbout
+  rw [totalMass_eq M st]
+  exact inertiaAboutL_parallel_axis P _ _ (com_moment M st hM)
+example (P : V3 Rat) := fpe_parallel_axis L12b.Ex.M1 L12b.Ex.st1 P L12b.Ex.M1_mass_ne
+
+/-- **transfer of the angular momentum**: `H_P = H_C + (C − P) × M v_C` -/
+theorem fpe_HP0_transfer [DecidableEq α] (M : SModel α) (st : State α) (P : V3 α) (hM : totalMass M ≠ 0) :
+    angularMomentumAbout M st P =
+      (angularMomentum M st).1 + (com M st - P).cross (totalMass M * comVelocity M st) := by
+  rw [angularMomentum_eq, com_momentum M st hM]
+  exact angMomAboutL_shift P (com M st) _
+example (P : V3 Rat) := fpe_HP0_transfer L12b.Ex.M1 L12b.Ex.st1 P L12b.Ex.M1_mass_ne
+
+/-- the ground projection lies on the plane, and the centre of mass is straight above it:
+    `r0C0 − r0P0 = h k` (so `r0C0 − r0P0 ∥ k`) -/
+theorem fpe_projection (C p k : V3 α) (hk : k.dot k = 1) :
+    (groundProjection C p k - p).dot k = 0 ∧
+    C - groundProjection C p k = heightAbove C p k * k ∧
+    (C - groundProjection C p k).cross k = V3.zero := by
+  simp only [alg] at hk
+  refine ⟨?_, ?_, ?_⟩
+  · simp only [groundProjection, alg]; grind
+  · simp only [groundProjection, heightAbove]; alg_ext
+  · simp only [groundProjection]; alg_ext
+example := fpe_projection L12b.Ex.C L12b.Ex.p L12b.Ex.k L12b.Ex.k_unit
+
+/-- the whole-body inertia about any point is symmetric when the body inertias are -/
+theorem fpe_inertia_symm [DecidableEq α] (M : SModel α) (st : State α) (P : V3 α)
+    (h : ∀ nd ∈ M.nodes, nd.inertia.transpose = nd.inertia) :
+    (inertiaAbout M st P).transpose = inertiaAbout M st P := by
+  unfold inertiaAbout
+  refine inertiaAboutL_symm P _ (fun b hb => ?_)
+  rw [bodyStates_eq] at hb
+  obtain ⟨q, hq, rfl⟩ := List.mem_map.1 hb
+  have hq' := (List.mem_filter.1 hq).1
+  exact conj_symm _ _ (h q.1 (List.of_mem_zip hq').1)
+example (P : V3 Rat) := fpe_inertia_symm L12b.Ex.M1 L12b.Ex.st1 P L12b.Ex.M1_symm
+
+/-- the specification satisfies the two transfer formulas the C++ evaluates (BalanceToolkit.cc:144-147),
+    with the cross-product matrix of `rPC0 = r0C0 − r0P0` -/
+theorem fpe_spec_transfer [DecidableEq α] (M : SModel α) (st : State α) (p k : V3 α) (hM : totalMass M ≠ 0) :
+    let S := fpeState M st p k
+    let rx := M3.skew (S.r0C0 - S.r0P0)
+    S.JP0 = S.JC0 + S.mass * (rx * rx.transpose) ∧ S.HP0 = S.HC0 + rx * (S.mass * S.v0C0) := by
+  intro S rx
+  refine ⟨?_, ?_⟩
+  · show inertiaAbout M st _ = inertiaAbout M st (com M st) + totalMass M * (rx * rx.transpose)
+    rw [fpe_parallel_axis M st _ hM, skew_mul_transpose]
+    rfl
+  · show angularMomentumAbout M st _ = (angularMomentum M st).1 + rx * (totalMass M * comVelocity M st)
+    rw [fpe_HP0_transfer M st _ hM, skew_mulVec]
+    rfl
+
+example := fpe_spec_transfer L12b.Ex.M1 L12b.Ex.st1 L12b.Ex.p L12b.Ex.k L12b.Ex.M1_mass_ne
+
+/-! ### the code-shaped straight-line part -/
+
+/-- every state field of the code-shaped routine in terms of the `CalcCenterOfMass` outputs `o` and the
+    workspace `w'` it leaves: `JC0` is the inertia about the centre of mass of the non-virtual movable
+    bodies as `X_base` places them, `r0P0` / `h` the ground projection / height, `JP0` the parallel-axis
+    form, `HP0` the transfer formula -/
+theorem fpeCore_fields [DecidableEq α] (m : ModelS α) (w : WS α) (st : QS α) (qd : VecN α) (p k : V3 α)
+    (update : Bool) :
+    let w' := (calcCenterOfMass m w st qd none false update).1
+    let o := (calcCenterOfMass m w st qd none false update).2
+    let r := (fpeCore m w st qd p k update).2
+    let d := o.com - r.r0P0
+    (fpeCore m w st qd p k update).1 = w' ∧
+    r.mass = o.mass ∧ r.r0C0 = o.com ∧ r.v0C0 = o.comVel ∧ r.HC0 = o.angMom ∧ r.k = k ∧
+    r.JC0 = inertiaAboutL o.com (codeStates m w') ∧
+    r.r0P0 = groundProjection o.com p k ∧ r.h = heightAbove o.com p k ∧
+    r.JP0 = r.JC0 + o.mass * (d.dot d * (M3.one : M3 α) - M3.outer d d) ∧
+    r.HP0 = r.HC0 + d.cross (o.mass * o.comVel) := by
+  intro w' o r d
+  refine ⟨rfl, rfl, rfl, rfl, rfl, rfl, jc0Loop_eq m w' o.com, rfl, ?_, ?_, ?_⟩
+  · show k.dot (o.com - p) = (o.com - p).dot k
+    simp only [alg]; grind
+  · show jc0Loop m w' o.com + o.mass * (M3.skew d * (M3.skew d).transpose) = _
+    rw [skew_mul_transpose]; rfl
+  · show o.angMom + M3.skew d * (o.mass * o.comVel) = _
+    rw [skew_mulVec]; rfl
+
+/-- the straight-line part is correct as soon as its inputs are: if the `CalcCenterOfMass` outputs are
+    the specification's mass, centre of mass, its velocity and the angular momentum about it, and the
+    bodies the `JC0` loop visits have the inertia of the specification's bodies about the centre of mass,
+    then **every** state field equals its definition (for any direction `k`) -/
+theorem fpeCore_eq_spec [DecidableEq α] (m : ModelS α) (w : WS α) (st : QS α) (qd : VecN α) (p k : V3 α)
+    (update : Bool) (M : SModel α) (sst : State α) (hM : totalMass M ≠ 0)
+    (hmass : (calcCenterOfMass m w st qd none false update).2.mass = totalMass M)
+    (hcom : (calcCenterOfMass m w st qd none false update).2.com = com M sst)
+    (hvel : (calcCenterOfMass m w st qd none false update).2.comVel = comVelocity M sst)
+    (hmom : (calcCenterOfMass m w st qd none false update).2.angMom = (angularMomentum M sst).1)
+    (hJ : inertiaAboutL (com M sst) (codeStates m (calcCenterOfMass m w st qd none false update).1)
+            = inertiaAbout M sst (com M sst)) :
+    (fpeCore m w st qd p k update).2 = fpeState M sst p k := by
+  obtain ⟨-, f1, f2, f3, f4, f5, f6, f7, f8, f9, f10⟩ := fpeCore_fields m w st qd p k update
+  have t := fpe_spec_transfer M sst p k hM
+  simp only at t
+  rw [skew_mul_transpose, skew_mulVec] at t
+  have hP : (fpeCore m w st qd p k update).2.r0P0 = (fpeState M sst p k).r0P0 := by rw [f7, hcom]; rfl
+  have hJC : (fpeCore m w st qd p k update).2.JC0 = (fpeState M sst p k).JC0 := by rw [f6, hcom, hJ]; rfl
+  have hHC : (fpeCore m w st qd p k update).2.HC0 = (fpeState M sst p k).HC0 := by rw [f4, hmom]; rfl
+  apply FpeState.ext
+  · rw [f1, hmass]; rfl
+  · rw [f2, hcom]; rfl
+  · rw [f3, hvel]; rfl
+  · exact hHC
+  · exact hJC
+  · exact hP
+  · rw [f10, hHC, hP, hcom, hmass, hvel, t.2]; rfl
+  · rw [f9, hJC, hP, hcom, hmass, t.1]; rfl
+  · rw [f8, hcom]; rfl
+  · rw [f5]; rfl
+
+/-- a one-body pendulum (revolute joint, `cos q = 3/5`, `q̇ = 2`, offset centre of mass, non-diagonal inertia):
+    the hypotheses hold (closed rational terms, kernel evaluation), the angular momentum is not zero -/
+example : (fpeCore L12b.Ex.m1 L12b.Ex.w1 L12b.Ex.qs1 L12b.Ex.qd1 L12b.Ex.p L12b.Ex.k false).2
+    = fpeState L12b.Ex.M1 L12b.Ex.st1 L12b.Ex.p L12b.Ex.k :=
+  fpeCore_eq_spec _ _ _ _ _ _ _ L12b.Ex.M1 L12b.Ex.st1 L12b.Ex.M1_mass_ne
+    L12b.Ex.e_mass L12b.Ex.e_com L12b.Ex.e_vel L12b.Ex.e_mom L12b.Ex.e_J
+example : (angularMomentum L12b.Ex.M1 L12b.Ex.st1).1 ≠ V3.zero := L12b.Ex.e_mom_ne
+
+/-! ### the foot-placement relations (everything that does not need the root search) -/
+
+/-- for a unit `n ⟂ k` (unit) the direction `u = n × k` completes a right-handed orthonormal frame
+    `(u, n, k)`: `u` is a horizontal unit vector and `k × u = n` -/
+theorem fpe_frame (n k : V3 α) (hn : n.dot n = 1) (hk : k.dot k = 1) (hnk : n.dot k = 0) :
+    (n.cross k).dot (n.cross k) = 1 ∧ (n.cross k).dot k = 0 ∧ (n.cross k).dot n = 0 ∧
+    k.cross (n.cross k) = n := by
+  simp only [alg] at hn hk hnk
+  refine ⟨?_, ?_, ?_, ?_⟩
+  · simp only [alg]; grind
+  · simp only [alg]; grind
+  · simp only [alg]; grind
+  · ext <;> simp only [alg] <;> grind
+example := fpe_frame L12b.Ex.n L12b.Ex.k L12b.Ex.n_unit L12b.Ex.k_unit L12b.Ex.n_perp_k
+
+/-- **the foot placement point lies on the ground plane**, whatever `n` and the step length `d = h tan φ`
+    are: `r0F0 = r0P0 + d (n × k)` -/
+theorem fpe_foot_on_plane (C p k n : V3 α) (d : α) (hk : k.dot k = 1) :
+    ((groundProjection C p k + d * n.cross k) - p).dot k = 0 ∧
+    ((groundProjection C p k + d * n.cross k) - groundProjection C p k).dot k = 0 := by
+  simp only [alg] at hk
+  refine ⟨?_, ?_⟩
+  · simp only [groundProjection, alg]; grind
+  · simp only [groundProjection, alg]; grind
+example (d : Rat) := fpe_foot_on_plane L12b.Ex.C L12b.Ex.p L12b.Ex.k L12b.Ex.n d L12b.Ex.k_unit
+
+/-- **… at the reported angle**: with a unit `n ⟂ k`, `(c, s) = (cos φ, sin φ)` and `t c = s`, the point
+    `F = P + (h t) u` is seen from the centre of mass at the angle `φ` from the downward vertical:
+    the vertical component of `C − F` is `h` and `|F − C|² cos² φ = h²`, i.e. `|F − C| = l = h / cos φ` -/
+theorem fpe_leg_angle (C p k n : V3 α) (c s t : α) (hn : n.dot n = 1) (hk : k.dot k = 1)
+    (hnk : n.dot k = 0) (hcs : c * c + s * s = 1) (ht : t * c = s) :
+    (C - (groundProjection C p k + (heightAbove C p k * t) * n.cross k)).dot k = heightAbove C p k ∧
+    ((groundProjection C p k + (heightAbove C p k * t) * n.cross k) - C).dot
+        ((groundProjection C p k + (heightAbove C p k * t) * n.cross k) - C) * (c * c)
+      = heightAbove C p k * heightAbove C p k := by
+  obtain ⟨hu, huk, -, -⟩ := fpe_frame n k hn hk hnk
+  obtain ⟨-, hCP, -⟩ := fpe_projection C p k hk
+  have hP : groundProjection C p k = C - heightAbove C p k * k := by rw [← hCP]; alg_ext
+  generalize n.cross k = u at hu huk
+  generalize heightAbove C p k = h at hP
+  rw [hP]
+  have e1 : C - (C - h * k + (h * t) * u) = h * k - (h * t) * u := by alg_ext
+  have e2 : (C - h * k + (h * t) * u) - C = (h * t) * u - h * k := by alg_ext
+  rw [e1, e2]
+  exact fpe_leg_aux k u h c s t hu huk hk hcs ht
+example := fpe_leg_angle L12b.Ex.C L12b.Ex.p L12b.Ex.k L12b.Ex.n (4/5) (3/5) (3/4)
+  L12b.Ex.n_unit L12b.Ex.k_unit L12b.Ex.n_perp_k L12b.Ex.cs_unit L12b.Ex.tan_ok
+
+/-- angular momentum about the contact point in the direction `n` (what is conserved at contact):
+    `n · ((C − F) × m v) + J w = J w + m h (v·u + tan φ v·k)` -/
+theorem fpe_contact_momentum (C p k n v : V3 α) (m J w t : α) (hn : n.dot n = 1) (hk : k.dot k = 1)
+    (hnk : n.dot k = 0) :
+    let h := heightAbove C p k
+    let F := groundProjection C p k + (h * t) * n.cross k
+    n.dot ((C - F).cross (m * v)) + J * w = J * w + m * h * ((n.cross k).dot v + t * k.dot v) := by
+  intro h F
+  obtain ⟨-, hCP, -⟩ := fpe_projection C p k hk
+  have hF' : C - F = h * k - (h * t) * n.cross k := by
+    show C - (groundProjection C p k + (h * t) * n.cross k) = _
+    have : groundProjection C p k = C - h * k := by rw [← hCP]; alg_ext
+    rw [this]; alg_ext
+  rw [hF']
+  generalize h = hh
+  simp only [alg] at hn hk hnk ⊢
+  grind
+example (m J w t : Rat) := fpe_contact_momentum L12b.Ex.C L12b.Ex.p L12b.Ex.k L12b.Ex.n L12b.Ex.v m J w t
+  L12b.Ex.n_unit L12b.Ex.k_unit L12b.Ex.n_perp_k
+
+/-- momentum balance at contact: `(J + m l²) ω⁺ = J w + m h (vu + tan φ vk)`, `l = h / cos φ` -/
+theorem fpe_omegaPlus (c s h m J vu vk w : α) (hc : c ≠ 0) (hden : fpeDen c h m J ≠ 0) :
+    (J + m * (h / c) * (h / c)) * fpeOmegaPlus c s h m J vu vk w
+      = J * w + m * h * (vu + (s / c) * vk) := by
+  unfold fpeOmegaPlus fpeT0 at *
+  unfold fpeDen at *
+  grind
+example (vu vk w : Rat) := fpe_omegaPlus (4/5) (3/5) 1 2 3 vu vk w L12b.Ex.c_ne L12b.Ex.den_ne
+
+/-- **Eqn. 45 from first principles**: the coded residual is `cos² φ` times (twice the post-contact
+    kinetic energy `(J + m l²) ω⁺²` of the inverted pendulum − twice the potential energy `m g l (1 − cos φ)`
+    it still has to gain to stand above the contact) -/
+theorem fpe_residual_energy (c s h m g J vu vk w : α) (hc : c ≠ 0) (hden : fpeDen c h m J ≠ 0) :
+    fpeResidual c s h m g J vu vk w
+      = (c * c) * ((J + m * (h / c) * (h / c)) * fpeOmegaPlus c s h m J vu vk w
+            * fpeOmegaPlus c s h m J vu vk w - 2 * (m * g * (h / c) * (1 - c))) := by
+  unfold fpeResidual fpeOmegaPlus fpeT0 fpeGrav at *
+  unfold fpeDen at *
+  grind
+example (g vu vk w : Rat) := fpe_residual_energy (4/5) (3/5) 1 2 g 3 vu vk w L12b.Ex.c_ne L12b.Ex.den_ne
+
+/-- the coded equation vanishes at `φ = π/2` (`cos φ = 0`) for **every** state: a spurious root that the
+    multiplication by `cos² φ` introduces (the |f|-descent of the C++ can end there: finding D17) -/
+theorem fpe_residual_spurious_root (s h m g J vu vk w : α) : fpeResidual 0 s h m g J vu vk w = 0 := by
+  unfold fpeResidual fpeT0 fpeGrav fpeDen
+  grind
+
+/-- the quotient rule used for the derivative fields: if `f Den = T0² + Grav Den` holds to first order
+    along a parameter (value and first derivative of the jets) and `Den ≠ 0`, then
+    `∂f = fpeResidualD1 T0 Den Grav` -/
+theorem fpe_residual_d1 (f T0 Den Grav : D2 α) (hden : Den.x ≠ 0)
+    (hx : (f * Den).x = (T0 * T0 + Grav * Den).x) (hd : (f * Den).d1 = (T0 * T0 + Grav * Den).d1) :
+    f.d1 = fpeResidualD1 T0 Den Grav := by
+  simp only [D2.mul_x, D2.mul_d1, D2.add_x, D2.add_d1] at hx hd
+  unfold fpeResidualD1
+  grind
+example : (⟨7/2, -1/4, 0⟩ : D2 Rat).d1 = fpeResidualD1 ⟨1, 1, 0⟩ ⟨2, 1, 0⟩ ⟨3, -1, 0⟩ :=
+  fpe_residual_d1 ⟨7/2, -1/4, 0⟩ ⟨1, 1, 0⟩ ⟨2, 1, 0⟩ ⟨3, -1, 0⟩ (by decide +kernel) (by decide +kernel)
+    (by decide +kernel)
+
+/-! ### the two findings, formally -/
+
+/-- finding D18: the guard `assert((k·n − 1) <= 10 ε)` of the precondition "the normal opposes gravity"
+    holds for **every** pair of unit vectors (Cauchy–Schwarz), so it can never fire -/
+theorem fpe_guard_vacuous (k n : V3 Rat) (hk : k.dot k = 1) (hn : n.dot n = 1) : k.dot n - 1 ≤ 0 := by
+  simp only [alg] at hk hn ⊢
+  have h1 := rat_mul_self_nonneg (k.x - n.x)
+  have h2 := rat_mul_self_nonneg (k.y - n.y)
+  have h3 := rat_mul_self_nonneg (k.z - n.z)
+  grind
+/-- … e.g. for a normal perpendicular to the vertical; and the point obtained by projecting along the
+    vertical `k` is then not on the caller's plane (normal `n`) -/
+example : L12b.Ex.k.dot L12b.Ex.n - 1 ≤ 0 := fpe_guard_vacuous _ _ L12b.Ex.k_unit L12b.Ex.n_unit
+example : (groundProjection L12b.Ex.C L12b.Ex.p L12b.Ex.k - L12b.Ex.p).dot L12b.Ex.n ≠ 0 := by
+  decide +kernel
+
+end Balance
 
 end Rbdl.C12
